@@ -64,7 +64,14 @@ def verify(ctx, repo, registry, prefix, qualnames, harness, expect_covers=(), ma
 
     funcs = []
     for q in ([qualnames] if isinstance(qualnames, str) else qualnames):
-        fi = repo.lookup(q)
+        try:
+            fi = repo.lookup(q)
+        except Unsupported as e:
+            ctx.engine_error("%s: engine cannot process the current source of %s: %s" % (prefix, q, e))
+            return
+        except SyntaxError as e:
+            ctx.engine_error("%s: the current source of %s does not parse: %s" % (prefix, q, e))
+            return
         if fi is None:
             ctx.engine_error("contract refers to %s which does not exist in the current source" % q)
             return
